@@ -38,6 +38,7 @@ static uint64 u64at(const uint8 * b) {return ((uint64)u32at(b)) | (((uint64)u32a
 static float f32at(const uint8 * b) {uint32 v = u32at(b); float f; memcpy(&f, &v, 4); return f;}
 
 static int g_alt = 0;   /* alternates between UMInlineAddMessage and UMAddMessage for sub-Messages */
+static int g_detour = 0; /* D command: bit 0 = one call per item, bit 1 = what codes set afterwards with UMSetWhatCode() */
 
 /* reads every field of src through the public getters and adds it to dst; 0 on success */
 static int copy_fields(UMessage * dst, const UMessage * src, const char ** why)
@@ -121,15 +122,17 @@ static int build_fields(UMessage * m, uint32 nf, char ** p, const char ** why)
             what = (uint32) strtoul(tok(p), NULL, 16); snf = (uint32) strtoul(tok(p), NULL, 10);
             if ((g_alt++) & 1)
             {
-               UMessage child = UMInlineAddMessage(m, (const char *) name, what);
+               UMessage child = UMInlineAddMessage(m, (const char *) name, (g_detour & 2) ? ~what : what);
                if (UMIsMessageReadOnly(&child)) {*why = "UMInlineAddMessage"; return 1;}
                if (build_fields(&child, snf, p, why)) return 1;
+               if ((g_detour & 2)&&(UMSetWhatCode(&child, what) != CB_NO_ERROR)) {*why = "UMSetWhatCode"; return 1;}
             }
             else
             {
                uint8 * tmp = (uint8 *) malloc(BUFSZ/8); UMessage s;
-               if (UMInitializeToEmptyMessage(&s, tmp, BUFSZ/8, what) != CB_NO_ERROR) {*why = "UMInitializeToEmptyMessage"; return 1;}
+               if (UMInitializeToEmptyMessage(&s, tmp, BUFSZ/8, (g_detour & 2) ? ~what : what) != CB_NO_ERROR) {*why = "UMInitializeToEmptyMessage"; return 1;}
                if (build_fields(&s, snf, p, why)) return 1;
+               if ((g_detour & 2)&&(UMSetWhatCode(&s, what) != CB_NO_ERROR)) {*why = "UMSetWhatCode"; return 1;}
                r = UMAddMessage(m, (const char *) name, s); free(tmp);
                if (r != CB_NO_ERROR) {*why = "UMAddMessage"; return 1;}
             }
@@ -141,7 +144,9 @@ static int build_fields(UMessage * m, uint32 nf, char ** p, const char ** why)
          for (j=0; j<n; j++) items[j] = unhex(tok(p), &lens[j]);
          switch(tc)
          {
-#define ADDFIXED(TC, CT, EXPR, ADD) case TC: {CT * a = (CT *) malloc(sizeof(CT) * (n + 1)); for (j=0; j<n; j++) {const uint8 * b = items[j]; CT x; EXPR; memcpy(&a[j], &x, sizeof(CT));} r = ADD(m, (const char *) name, a, n); free(a);} break;
+/* g_detour & 1: one call per item (consecutive additions to the field being added append to it) instead of one call with the whole array */
+#define ADDFIXED(TC, CT, EXPR, ADD) case TC: {CT * a = (CT *) malloc(sizeof(CT) * (n + 1)); for (j=0; j<n; j++) {const uint8 * b = items[j]; CT x; EXPR; memcpy(&a[j], &x, sizeof(CT));} \
+                                              if ((g_detour & 1)&&(n >= 2)) {for (j=0; (j<n)&&(r == CB_NO_ERROR); j++) r = ADD(m, (const char *) name, &a[j], 1);} else r = ADD(m, (const char *) name, a, n); free(a);} break;
             ADDFIXED(B_BOOL_TYPE,   UBool,  x = b[0] ? UTrue : UFalse,  UMAddBools)
             ADDFIXED(B_INT8_TYPE,   int8,   x = (int8) b[0],            UMAddInt8s)
             ADDFIXED(B_INT16_TYPE,  int16,  x = (int16)(b[0] | (b[1] << 8)), UMAddInt16s)
@@ -151,7 +156,7 @@ static int build_fields(UMessage * m, uint32 nf, char ** p, const char ** why)
             ADDFIXED(B_DOUBLE_TYPE, double, {uint64 v = u64at(b); memcpy(&x, &v, 8);}, UMAddDoubles)
             ADDFIXED(B_POINT_TYPE,  UPoint, {x.x = f32at(b); x.y = f32at(b+4);}, UMAddPoints)
             ADDFIXED(B_RECT_TYPE,   URect,  {x.left = f32at(b); x.top = f32at(b+4); x.right = f32at(b+8); x.bottom = f32at(b+12);}, UMAddRects)
-            case B_STRING_TYPE: r = UMAddStrings(m, (const char *) name, (const char **) items, n); break;
+            case B_STRING_TYPE: if ((g_detour & 1)&&(n >= 2)) {for (j=0; (j<n)&&(r == CB_NO_ERROR); j++) r = UMAddString(m, (const char *) name, (const char *) items[j]);} else r = UMAddStrings(m, (const char *) name, (const char **) items, n); break;
             default: for (j=0; j<n; j++) if (UMAddData(m, (const char *) name, tc, items[j], lens[j]) != CB_NO_ERROR) r = CB_ERROR; break;
          }
          for (j=0; j<n; j++) free(items[j]);
@@ -201,22 +206,25 @@ int main(void)
          else {printf("K "); puthex(UMGetFlattenedBuffer(&dst), UMGetFlattenedSize(&dst)); printf("\n");}
          free(b);
       }
-      else if (strcmp(cmd, "B") == 0)
+      else if ((strcmp(cmd, "B") == 0)||(strcmp(cmd, "D") == 0))
       {
-         char * t = tok(&p); UMessage m; uint32 what, nf;
+         char * t; UMessage m; uint32 what, nf;
+         g_detour = (cmd[0] == 'D') ? atoi(tok(&p)) : 0;
+         t = tok(&p);
          if ((t == NULL)||(strcmp(t, "M") != 0)) printf("E syntax\n");
          else
          {
             what = (uint32) strtoul(tok(&p), NULL, 16); nf = (uint32) strtoul(tok(&p), NULL, 10);
-            if (UMInitializeToEmptyMessage(&m, out, BUFSZ, what) != CB_NO_ERROR) printf("E UMInitializeToEmptyMessage\n");
+            if (UMInitializeToEmptyMessage(&m, out, BUFSZ, (g_detour & 2) ? ~what : what) != CB_NO_ERROR) printf("E UMInitializeToEmptyMessage\n");
             else if (build_fields(&m, nf, &p, &why)) printf("E native build failed: %s\n", why);
+            else if ((g_detour & 2)&&(UMSetWhatCode(&m, what) != CB_NO_ERROR)) printf("E UMSetWhatCode\n");
             else {printf("K "); puthex(UMGetFlattenedBuffer(&m), UMGetFlattenedSize(&m)); printf("\n");}
          }
       }
       else if (strcmp(cmd, "G") == 0)
       {
          Stream s; UMessageGateway gw; int bad = 0, idle = 0;
-         memset(&s, 0, sizeof(s)); s.rnd = (uint32) strtoul(tok(&p), NULL, 10);
+         memset(&s, 0, sizeof(s)); s.rnd = (uint32) strtoul(tok(&p), NULL, 10); g_detour = 0;
          UGGatewayInitialize(&gw, ib, BUFSZ, ob, BUFSZ);
          while ((p != NULL)&&(bad == 0))
          {
